@@ -989,6 +989,8 @@ def edit(rng, p):
             if x < 0.4:
                 if q[0] in ("repeat", "within"):
                     return replace_at(p, path, ("qual", e[1], (q[0], q[1] + 1))), "change-qualifier"
+                if q[0] == "withinf":
+                    return replace_at(p, path, ("qual", e[1], ("withinf", "7.75"))), "change-qualifier"
                 return replace_at(p, path, ("qual", e[1], ("startstop", q[1], TIMES[9]))), "change-qualifier"
             if x < 0.6:
                 return replace_at(p, path, e[1]), "drop-qualifier"
